@@ -74,11 +74,12 @@ def make_observers(future_checks=True):
                             continue
                         w.rec("c06_future", m.market_id, g, s, t, repr(val))
                     for g in BULK:
-                        try:
-                            val = getattr(m, g)([t, s])
-                        except Exception:  # noqa
-                            continue
-                        w.rec("c06_future", m.market_id, g, s, t, repr(val))
+                        for times in ([t, s], [s, t], (s, 0), range(s, -1, -1), iter([s, t]), [0, s, t]):
+                            try:
+                                val = getattr(m, g)(times)
+                            except Exception:  # noqa
+                                continue
+                            w.rec("c06_future", m.market_id, g, s, t, repr(val))
         w.wit.inc("future_queries_refused_points")
         w.wit.inc("past_values_compared", n)
     return obs, before_clock
